@@ -820,6 +820,7 @@ package ctfe
 //@ ensures [merge-delays-non-negative-and-ordered] result1 == nil ==> 0 <= cfg.ExpectedMergeDelaySec && cfg.ExpectedMergeDelaySec <= cfg.MaxMergeDelaySec
 //@ ensures [frozen-sth-must-verify-under-the-public-key] result1 == nil && cfg.FrozenSth != nil ==> nv.called && nv.res1 == nil && ts.called && ts.res1 == nil && vs.called && vs.res == nil && result0.FrozenSTH == ts.res0
 //@ ensures [ctfe-storage-needs-a-usable-connection-string] result1 == nil && cfg.ExtraDataIssuanceChainStorageBackend == configpb.LogConfig_ISSUANCE_CHAIN_STORAGE_BACKEND_CTFE ==> len(cfg.CtfeStorageConnectionString) > 0 && ((hm.res && my.called && my.res1 == nil) || (!hm.res && hp.called && hp.res && pg.called && pg.res1 == nil)) && result0.CTFEStorageConnectionString == cfg.CtfeStorageConnectionString
+//@ ensures [a-mysql-string-has-a-scheme-separator-and-the-part-after-it-is-what-is-checked] result1 == nil && cfg.ExtraDataIssuanceChainStorageBackend == configpb.LogConfig_ISSUANCE_CHAIN_STORAGE_BACKEND_CTFE && hm.res ==> splitCount(cfg.CtfeStorageConnectionString, "://") >= 2 && my.dsn == splitPart1(cfg.CtfeStorageConnectionString, "://")
 //@ ensures [accepts-every-well-formed-config] result1 != nil ==> cfg.LogId == 0 || (pk.called && pk.res1 != nil) || (cfg.IsMirror && (cfg.PublicKey == nil || cfg.PrivateKey != nil)) || (cfg.FrozenSth != nil && cfg.PublicKey == nil) || (!cfg.IsMirror && (cfg.PrivateKey == nil || (un.called && un.res1 != nil))) || (cfg.RejectExpired && cfg.RejectUnexpired) || (exists k int :: 0 <= k && k < len(cfg.ExtKeyUsages) && !has(stringToKeyUsage, cfg.ExtKeyUsages[k])) || (cvs.called && cvs.res != nil) || (cvl.called && cvl.res != nil) || (cfg.NotAfterStart != nil && cfg.NotAfterLimit != nil && instant(atl.res) < instant(ats.res)) || cfg.MaxMergeDelaySec < 0 || cfg.ExpectedMergeDelaySec < 0 || cfg.ExpectedMergeDelaySec > cfg.MaxMergeDelaySec || (cfg.FrozenSth != nil && ((nv.called && nv.res1 != nil) || (ts.called && ts.res1 != nil) || (vs.called && vs.res != nil))) || (cfg.ExtraDataIssuanceChainStorageBackend == configpb.LogConfig_ISSUANCE_CHAIN_STORAGE_BACKEND_CTFE && (len(cfg.CtfeStorageConnectionString) == 0 || (hm.called && hm.res && !(my.called && my.res1 == nil)) || (pg.called && pg.res1 != nil) || (hm.called && !hm.res && hp.called && !hp.res)))
 //@ ensures [validated-values-are-the-parsed-ones] result1 == nil ==> result0.Config == cfg && (cfg.PublicKey != nil ==> result0.PubKey == pk.res0) && (!cfg.IsMirror ==> result0.PrivKey == un.res0) && (cfg.NotAfterStart != nil ==> result0.NotAfterStart != nil && *result0.NotAfterStart == ats.res) && (cfg.NotAfterStart == nil ==> result0.NotAfterStart == nil) && (cfg.NotAfterLimit != nil ==> result0.NotAfterLimit != nil && *result0.NotAfterLimit == atl.res) && (cfg.NotAfterLimit == nil ==> result0.NotAfterLimit == nil) && result0.ExtraDataIssuanceChainStorageBackend == cfg.ExtraDataIssuanceChainStorageBackend
 //@ at pk assert [parses-the-configured-der] pk.derBytes == cfg.PublicKey.Der
